@@ -111,7 +111,7 @@ def run(tier, seed, replay=None):
     rng = chk.rng
     chk.assumptions += [
         "model scope: updateNodeConfig/updateGroupConfig/updateConfig/patchConfigStatus/sameConfigVersion of pkg/agent/agent.go; a configuration is (uid, generation, name, Validate()==nil, notify callback returns nil)",
-        "not modelled: the select loop of Agent.Start (Added/Modified -> update(obj), Deleted -> update(nil)), watch re-opening, a.configure(), fatal=true from the notify callback (process exit)",
+        "not modelled: the select loop of Agent.Start (Added/Modified -> update(obj), Deleted -> update(nil); validated by one scripted 8-event scenario through the real loop with the real file watch and a fake group watch, compared with direct calls), watch re-opening, a.configure(), fatal=true from the notify callback (process exit)",
         "coherence assumption of the history theorems: objects with equal uid and equal non-zero generation are identical (API server guarantee); refuted without it (C17_delivered_is_effective_refuted_incoherent)",
         "correspondence: in-package Go harness (harness/c17) calls the real update functions with fake objects, a recording notify callback and a recording ConfigInterface; compares nodeCfg/groupCfg/currentCfg and every notify/PatchStatus call after every step",
     ]
@@ -143,24 +143,36 @@ def run(tier, seed, replay=None):
     with open(os.path.join(chk.work, 'c17_in.json'), 'w') as f:
         json.dump(tables, f)
 
-    rc, out, dt = go_test('./pkg/agent/', HARNESS, '^TestVerifC17$', env={'VERIF_OUT': chk.work}, timeout=900 if tier != 'quick' else 240)
+    rc, out, dt = go_test('./pkg/agent/', HARNESS, '^TestVerifC17(Dispatch)?$', env={'VERIF_OUT': chk.work}, timeout=900 if tier != 'quick' else 240)
     outp = os.path.join(chk.work, 'c17_out.jsonl')
-    if rc != 0 or not os.path.exists(outp):
+    dispp = os.path.join(chk.work, 'c17_dispatch.json')
+    disp = json.load(open(dispp)) if os.path.exists(dispp) else None
+    if not os.path.exists(outp) or disp is None or (rc != 0 and (disp['ok'] or disp.get('skipped'))):
         chk.corr_broken('harness', 'go test failed:\n' + out[-3000:])
         return chk.finish(rule='harness failed')
     recs = [json.loads(l) for l in open(outp)]
 
+    # ---------------- the same events through the real Agent.Start loop (file watch + fake group watch)
+    if disp.get('skipped'):
+        chk.assumptions.append('Agent.Start dispatch scenario skipped: ' + disp['skipped'])
+    elif not disp['ok']:
+        chk.violation('start-loop-dispatch-differs', 'watch events dispatched by Agent.Start do not act like the update functions: ' + disp.get('what', ''),
+                      {'scenario': disp['steps']})
+
     # ---------------- oracle verdicts (computed in Go on the agent's calls)
     nseq = nsweepseq = 0
+    allv = sorted(((v['step'], i, j) for i, r in enumerate(recs) for j, v in enumerate(r.get('viols', []))))
+    for _, i, j in allv:   # shortest failing histories first: finish() keeps the first replay per signature
+        r, v = recs[i], recs[i]['viols'][j]
+        t = tables[r['table']]
+        pre = v['seq'][:v['step'] + 1]
+        chk.violation(v['sig'], '%s; events: %s' % (v['what'], json.dumps(explicit(t, pre))),
+                      {'table': {'cfgs': t['cfgs'], 'alpha': t['alpha'], 'coherent': t['coherent']}, 'seq': pre,
+                       'events': explicit(t, pre), 'calls_per_step': v['calls_per_step'][:v['step'] + 1]})
     for r in recs:
         t = tables[r['table']]
         if r.get('err'):
             chk.corr_broken('harness', 'harness error in table %d %s %d: %s' % (r['table'], r['kind'], r['index'], r['err']))
-        for v in r.get('viols', []):
-            pre = v['seq'][:v['step'] + 1]
-            chk.violation(v['sig'], '%s; events: %s' % (v['what'], json.dumps(explicit(t, pre))),
-                          {'table': {'cfgs': t['cfgs'], 'alpha': t['alpha'], 'coherent': t['coherent']}, 'seq': pre,
-                           'events': explicit(t, pre), 'calls_per_step': v['calls_per_step'][:v['step'] + 1]})
         if r['kind'] == 'seq':
             nseq += 1
         else:
